@@ -249,6 +249,13 @@ func (c *Conn) Lock(level int) error {
 	return nil
 }
 
+func (c *Conn) busyTimeout() time.Duration {
+	if c.BusyTimeout == 0 {
+		return 2 * time.Second
+	}
+	return c.BusyTimeout
+}
+
 // LockBusy is Lock with the busy handler: ErrBusy is retried until BusyTimeout.
 func (c *Conn) LockBusy(level int) error {
 	d := c.BusyTimeout
